@@ -183,6 +183,14 @@ class Gen:
                     size = E.sym(s)
             ports.append({"name": f"in_{k}", "direction": "input", "size": size})
         scope = params + [s for s in size_syms if s not in params]
+        # a through port on a routine WITH children: the wire enters, bypasses every child and leaves
+        # (QREF forbids wiring such a port inside the routine)
+        n_through = 0
+        if n_in and not is_rep and rng.random() < 0.7 * self.p_through:
+            k = rng.randrange(n_in)
+            if ports[k]["size"] is not None or not is_root:
+                ports[k] = {"name": f"thru_{k}", "direction": "through", "size": ports[k]["size"]}
+                n_through = 1
         locals_ = []
         if scope and rng.random() < 0.4:
             ln = rng.choice([l for l in LOCAL_POOL if l not in scope] or ["L2"])
@@ -191,7 +199,7 @@ class Gen:
         # children and wiring
         n_children = 1 if is_rep else rng.randint(1, self.max_children)
         names = rng.sample(CHILD_NAMES, n_children)
-        open_wires = [f"in_{k}" for k in range(n_in)]
+        open_wires = [p["name"] for p in ports if p["direction"] == "input"]
         children, connections = [], []
         for cn in names:
             k_in = len(open_wires) if is_rep else rng.randint(0, min(3, len(open_wires)))
@@ -254,7 +262,7 @@ class Gen:
                 "repetition": repetition, "children": children}
         if rng.random() < self.p_shuffle:
             rng.shuffle(node["children"])
-        return node, n_out
+        return node, n_out + n_through
 
 
 def gen_hierarchy(rng, **kw):
